@@ -45,7 +45,7 @@ MODES = ["COMMON", "LHS", "RHS", "ALL"]
 
 
 def budget(tier):
-    return dict(examples=800, seconds=40) if tier == "quick" else dict(examples=12000, seconds=420)
+    return dict(examples=1500, seconds=40) if tier == "quick" else dict(examples=10000, seconds=400)
 
 
 # ===================================================================================================== generation
